@@ -228,7 +228,7 @@ Proof.
   pystart. unfold ctor_ok, is_callable.
   destruct (py_callable program tgt) eqn:Ct; destruct (truthy ini) eqn:Ti; destruct (truthy fin) eqn:Tf;
     destruct (py_callable program ini) eqn:Ci; destruct (py_callable program fin) eqn:Cf;
-    cbn [andb orb negb]; timeout 60 pyrun.
+    cbn [andb orb negb]; timeout 600 pyrun.
 Qed.
 #[local] Arguments truthy : simpl nomatch.
 
